@@ -42,7 +42,7 @@ theorem cinv_reset (i : Inst) (hw : WF i) : CInv i (env.reset i) := ⟨einv_rese
 theorem cinv_step (i : Inst) (s : State) (a : Nat) (h : CInv i s) : CInv i (env.step i s a) :=
   ⟨einv_step i s a h.e, fun hc => by
     have : a = 0 := hc
-    subst this; simp [env, step]⟩
+    subst this; simp [step_used]⟩
 
 theorem cinv_of_reach (i : Inst) (hw : WF i) {s : State} (h : Reach env i s) : CInv i s :=
   inv_of_reach (Inv := CInv i) (cinv_reset i hw) (fun s a hi _ _ => cinv_step i s a hi) h
@@ -71,7 +71,7 @@ theorem done_stable (i : Inst) (hw : WF i) {s : State} (hr : Reach env i s) (a :
       by_cases h0 : j = 0
       · subst h0; rw [hi.rem0]; exact Int.le_refl 0
       · exact hi.remNN j (by omega)
-    simp only [delivered]; omega
+    simp only [delivered_eq]; omega
   · exact hz j hj
 
 /-- Σ_{j=1..n} f j -/
@@ -204,7 +204,7 @@ theorem phi_decreases (i : Inst) (hw : WFpos i) (s : State) (a : Nat) (hi : CInv
   simp only [env] at ha
   by_cases h0 : a = 0
   · subst h0
-    have hdel : delivered i s 0 = 0 := by simp only [delivered, he.rem0]; omega
+    have hdel : delivered i s 0 = 0 := by simp only [delivered_eq, he.rem0]; omega
     have hrem : ∀ j, (env.step i s 0).rem j = s.rem j := by
       intro j
       simp only [env, step, upd_apply, hdel]
@@ -213,7 +213,7 @@ theorem phi_decreases (i : Inst) (hw : WFpos i) (s : State) (a : Nat) (hi : CInv
       · rfl
     have hK : K i (env.step i s 0) = K i s := K_step_same i s 0 (fun j _ _ => by rw [hrem j])
     have hR : R i (env.step i s 0) = R i s := sumTo_congr (fun j _ _ => hrem j)
-    have hused : (env.step i s 0).used = 0 := by simp [env, step]
+    have hused : (env.step i s 0).used = 0 := by simp [step_used]
     have htau' : tau i (env.step i s 0) = 0 := by simp [tau, env, step]
     have hRnn : 0 ≤ R i s := sumTo_nonneg he.remNN
     by_cases hc : s.cur = 0
@@ -262,7 +262,7 @@ theorem phi_decreases (i : Inst) (hw : WFpos i) (s : State) (a : Nat) (hi : CInv
     have hpos : 0 < s.rem a := by omega
     have hlt : s.used < i.cap := by omega
     have hcur' : (env.step i s a).cur = a := rfl
-    have hused' : (env.step i s a).used = s.used + delivered i s a := by simp [env, step, h0]
+    have hused' : (env.step i s a).used = s.used + delivered i s a := by simp [step_used, h0]
     have hrema : (env.step i s a).rem a = s.rem a - delivered i s a := by simp [env, step]
     have hother : ∀ j, j ≠ a → (env.step i s a).rem j = s.rem j := by
       intro j hj; simp [env, step, hj]
@@ -279,14 +279,14 @@ theorem phi_decreases (i : Inst) (hw : WFpos i) (s : State) (a : Nat) (hi : CInv
         · omega
         · omega
     by_cases hcomp : s.rem a ≤ i.cap - s.used
-    · have hdel : delivered i s a = s.rem a := by simp only [delivered]; omega
+    · have hdel : delivered i s a = s.rem a := by simp only [delivered_eq]; omega
       have hz : (env.step i s a).rem a = 0 := by rw [hrema, hdel]; omega
       have hK := K_step_complete i s a h0 (by omega) hpos hz
       have htau' : tau i (env.step i s a) ≤ 1 := by
         unfold tau; rw [hcur']; simp only [h0, if_false]; split <;> omega
       simp only [phi, hsum, heps']
       omega
-    · have hdel : delivered i s a = i.cap - s.used := by simp only [delivered]; omega
+    · have hdel : delivered i s a = i.cap - s.used := by simp only [delivered_eq]; omega
       have hK : K i (env.step i s a) = K i s := by
         apply K_step_same
         intro j _ _
